@@ -6,6 +6,7 @@ import (
 	"github.com/ethereum/go-ethereum/common"
 	"github.com/holiman/uint256"
 	"math/big"
+	"sort"
 )
 
 type NodeType int
@@ -83,13 +84,23 @@ func NewRootKey() *StorageKey {
 	}
 }
 
+// sortedChildrenIndices returns the indices of the children in ascending
+// (bytewise) order: map iteration order must not leak into the results, they
+// are consumed by Aspects and have to be identical on every node.
+func (k *StorageKey) sortedChildrenIndices() []string {
+	indices := make([]string, 0, len(k.childrenIndex))
+	for index := range k.childrenIndex {
+		indices = append(indices, index)
+	}
+	sort.Strings(indices)
+	return indices
+}
+
 // Children returns the children of the storage key
 func (k *StorageKey) Children() []*StorageKey {
 	res := make([]*StorageKey, 0, len(k.childrenIndex))
-	if len(k.childrenIndex) > 0 {
-		for _, child := range k.childrenIndex {
-			res = append(res, child)
-		}
+	for _, index := range k.sortedChildrenIndices() {
+		res = append(res, k.childrenIndex[index])
 	}
 	return res
 }
@@ -97,10 +108,8 @@ func (k *StorageKey) Children() []*StorageKey {
 // ChildrenIndices returns the indices of the children of the storage key
 func (k *StorageKey) ChildrenIndices() [][]byte {
 	res := make([][]byte, 0, len(k.childrenIndex))
-	if len(k.childrenIndex) > 0 {
-		for index := range k.childrenIndex {
-			res = append(res, []byte(index))
-		}
+	for _, index := range k.sortedChildrenIndices() {
+		res = append(res, []byte(index))
 	}
 	return res
 }
@@ -380,14 +389,7 @@ func (s *StateChanges) IndicesOfChanges(account common.Address, stateVarName str
 		return nil
 	}
 
-	res := make([][]byte, 0, len(key.childrenIndex))
-	if len(key.childrenIndex) > 0 {
-		for index := range key.childrenIndex {
-			res = append(res, []byte(index))
-		}
-	}
-
-	return res
+	return key.ChildrenIndices()
 }
 
 // Call records the current contract call information
